@@ -6,7 +6,11 @@
 (*   coefficients inside the ranges of the fixed-width secret key format.                            *)
 EXTENDS Crt, KeyCodec
 GsBound == 16822
-KeyFacts(f, g, F, G, h, leaves, P) ==
+\* pre-order shape of the signing tree (Algorithm 9, ffLDL): a branch carries a polynomial of the ring's current degree, its two
+\* children live in the ring of half the degree; at degree 2 the children are leaves (written 0)
+RECURSIVE TreeShape(_)
+TreeShape(n) == IF n = 2 THEN <<2, 0, 0>> ELSE <<n>> \o TreeShape(n \div 2) \o TreeShape(n \div 2)
+KeyFactsT(f, g, F, G, h, leaves, shape, leafzero, P) ==
   LET n == P.n
       det == DetEquals(f, G, g, F, Q)
       c == Ctx(Q, G1, n)
@@ -17,6 +21,8 @@ KeyFacts(f, g, F, G, h, leaves, P) ==
       pk_relation |-> hf = ReduceSeq(g, Q),
       gs_first |-> NormSq(f) + NormSq(g) <= GsBound,
       leaf_count |-> Len(leaves) = n,
+      tree_shape |-> shape = TreeShape(n) /\ leafzero,
       leaves_in_range |-> \A i \in 1..Len(leaves) : IsPositiveFinite(leaves[i]) /\ LeqWords(SigmaMinBitsOf(n), leaves[i]) /\ LeqWords(leaves[i], SigmaMaxBits),
       representable |-> Representable(f, g, F, P) /\ \A i \in 1..n : Fits(G[i], P.wF)]
+KeyFacts(f, g, F, G, h, leaves, P) == KeyFactsT(f, g, F, G, h, leaves, TreeShape(P.n), TRUE, P)
 =====================================================================
